@@ -267,6 +267,14 @@ func (mbs *metadataPartStorage) AppendObject(ctx context.Context, bucketName sto
 			Parts:        allParts,
 		}
 
+		if existingObject != nil {
+			// An append keeps the object's metadata, tags and storage class. Without this a
+			// versioning-enabled append (which writes a new version) would drop them.
+			updatedObject.Metadata = existingObject.Metadata
+			updatedObject.Tags = existingObject.Tags
+			updatedObject.StorageClass = existingObject.StorageClass
+		}
+
 		metaOpts := &metadatastore.AppendObjectOptions{}
 		metadataResult, err := mbs.metadataStore.AppendObject(ctx, tx.SqlTx(), bucketName, updatedObject, metaOpts)
 		if err != nil {
